@@ -416,7 +416,7 @@ def resolve_printed(printed: list[str], roots: list[str], snap: dict[str, str]) 
                 res = None
                 break
             full = f"{parent}/{s}" if parent else s
-            if full not in snap:
+            if full not in snap and not any(a in snap and "/.git/" in a + "/" for a in ancestors(full)):
                 res = None
                 break
             res.append(full)
@@ -425,6 +425,11 @@ def resolve_printed(printed: list[str], roots: list[str], snap: dict[str, str]) 
         if os.path.commonpath(["/" + x for x in res + roots]).lstrip("/") == a:
             return res
     return None
+
+
+def ancestors(p: str) -> list[str]:
+    parts = p.split("/")
+    return ["/".join(parts[:i]) for i in range(1, len(parts))]
 
 
 def covered(listed: list[str], snap: dict[str, str]) -> set[str]:
@@ -476,15 +481,28 @@ def forbidden_categories(case: dict, obs: dict, snap: dict[str, str], roots: lis
         if any(pp.match(pat) for pat in pats):
             ex.add(p)
     cats["exclude-match"] = ex
+    # the contents of an excluded directory that is reached from a given path (a path given explicitly *inside* an
+    # excluded directory is walked from there: its ancestors are not looked at)
+    cats["below-excluded-dir"] = {p for p in snap for r in roots if under(p, r)
+                                  for e in ex if snap.get(e) == "d" and p.startswith(e + "/") and under(e, r)}
     cats["outside-paths"] = {p for p in snap if not any(under(p, r) for r in roots)}
+    cats["directory-node-match"] = directory_node_matches(case, snap, roots)
+    return cats
+
+
+def directory_node_matches(case: dict, snap: dict[str, str], roots: list[str]) -> set[str]:
+    """Files a DirectoryNode(root_dir, pattern) declared by a *collected* task resolves to (patterns generated here
+    have one component; the declaring module is `task_dn.py` in the project root)."""
+    root = case["root"]
     dn = set()
+    if not any(under(f"{root}/{m}", r) for m in case["modules"] if m == "task_dn.py" for r in roots):
+        return dn
     for d in case.get("dirnodes", []):
         for p in snap:
             par = f"{root}/{d['dir']}"
             if p.startswith(par + "/") and "/" not in p[len(par) + 1:] and snap[p] != "d" and PurePosixPath(p).match(d["pattern"]):
                 dn.add(p)
-    cats["directory-node-match"] = dn
-    return cats
+    return dn
 
 
 def classify(case: dict, hit_cats: set[str], path: str) -> str | None:
@@ -509,6 +527,7 @@ def model_line(case: dict, obs: dict, snap: dict[str, str], roots: list[str], mo
         "config=" + (enc_path(f"{V}/{root}/pyproject.toml") if case["has_cfg"] else "-"),
         "mods=" + ",".join(enc_path(f"{V}/{m}") for m in collected_modules(case, roots)),
         "nodes=" + ",".join(enc_path(f"{V}/{n}") for n in declared_nodes(case, roots)),
+        "dnodes=" + ",".join(enc_path(f"{V}/{n}") for n in sorted(directory_node_matches(case, snap, roots))),
         "excl=" + ",".join(enc(p.replace("{W}", V)) for p in effective_patterns(case)),
         "dirs=" + ("1" if any(a in ("-d", "--directories") for a in case["args"]) else "0"),
         "mode=" + mode,
@@ -541,18 +560,29 @@ def judge(ctx, case: dict, obs: dict, line_sink: list | None = None) -> None:
     ctx.dist["excl:" + ("cfg" if case["cfg_pats"] is not None else "cli" if case["cli_pats"] else "none")] += 1
     ctx.dist["second:" + second["mode"]] += 1
     if dry["exit"] != 0 or second["exit"] != 0:
-        # the command failed (collection error, crash): nothing may have been removed
         ctx.dist["nonzero-exit"] += 1
-        gone = [p for p in s0 if p not in s1]
-        if gone:
-            ctx.violation(f"dry-run-removed: {gone[:3]} disappeared in a (failing) dry-run, exit {dry['exit']}", rp)
         ctx.extra.setdefault("nonzero_exit_samples", [])
         if len(ctx.extra["nonzero_exit_samples"]) < 3:
             ctx.extra["nonzero_exit_samples"].append((dry["tail"] or second["tail"])[-300:])
+    if dry["exit"] != 0:
+        # the command failed (collection error, crash): nothing may have been removed
+        gone = [p for p in s0 if p not in s1]
+        if gone:
+            ctx.violation(f"dry-run-removed: {gone[:3]} disappeared in a (failing) dry-run, exit {dry['exit']}", rp)
         ctx.case({"c": case["id"], "x": "exit"}, False)
         return
+    second_failed = second["exit"] != 0     # the dry-run listing is still judged; the removal is only bounded from above
 
-    listed = resolve_printed(dry["would"], roots, s1)
+    # --- oracle 2: dry-run removes / changes nothing (checked first: everything else is read off the dry-run listing)
+    for p, k in s0.items():
+        if p not in s1:
+            ctx.violation(f"dry-run-removed: {p} disappeared in dry-run mode", rp)
+            break
+        if s1[p] != k and not p.startswith(f"{case['root']}/.pytask/") and "/.git/" not in p:
+            ctx.violation(f"dry-run-changed: {p} changed in dry-run mode", rp)
+            break
+
+    listed = resolve_printed(dry["would"], roots, {**s0, **s1})
     if listed is None:
         ctx.dist["unresolved-output"] += 1
         ctx.case({"c": case["id"], "x": "unres"}, False)
@@ -581,17 +611,14 @@ def judge(ctx, case: dict, obs: dict, line_sink: list | None = None) -> None:
                               finding=classify(case, hq, q))
                 break
 
-    # --- oracle 2: dry-run removes / changes nothing
-    for p, k in s0.items():
-        if p not in s1:
-            ctx.violation(f"dry-run-removed: {p} disappeared in dry-run mode", rp)
-            break
-        if s1[p] != k and not p.startswith(f"{case['root']}/.pytask/") and "/.git/" not in p:
-            ctx.violation(f"dry-run-changed: {p} changed in dry-run mode", rp)
-            break
-
     # --- oracle 3: force removes exactly what dry-run lists; interactive exactly the confirmed ones
     gone = {p for p in s1 if p not in s2}
+    if second_failed:
+        more = sorted(gone - cov)
+        if more:
+            ctx.violation(f"force-removed-more: a failing {second['mode']} run (exit {second['exit']}) removed {more[:3]} which dry-run did not list", rp)
+        ctx.case({"c": case["id"], "x": "exit2"}, False)
+        return
     if second["mode"] == "force":
         rem = resolve_printed(second["removed"], roots, s1)
         if rem is not None and set(rem) != set(listed):
@@ -790,7 +817,7 @@ def exh_judge(ctx, jobs: list[dict], results: list[dict]) -> None:
 # pmatch vs PurePosixPath.match
 # ---------------------------------------------------------------------------------------------
 
-ATOMS = ["a", "b", ".", "*", "?", "[ab]", "[!a]", "[a-b]", "/", "]", "[", "-", "!", "^"]
+ATOMS = ["a", "b", ".", "*", "?", "[ab]", "[!a]", "[a-b]", "/", "]", "[", "-", "!", "^", "[+-z]"]   # [+-z] spans the code of "/" but not of the newline that stands for it in pathlib._lines
 PM_PATHS = ["/a", "/b", "/a/b", "/b/a", "/a/a", "/ab", "/a/ab", "/ab/b", "/a.b", "/.a", "/a/-", "/a/]", "/a/[a]", "/a/!", "/a/^b",
             "/a/b/a", "/b/.b", "/a/[", "/a/a-b"]
 
@@ -887,8 +914,8 @@ def load_corpus() -> list[dict]:
 def campaign(ctx) -> None:
     # 1. corpus (known witnesses must still be detected: self-test of the oracle)
     corpus = load_corpus()
-    n_cli = ctx.scale(520, 6000)
-    n_dn = ctx.scale(36, 300)
+    n_cli = ctx.scale(400, 6000)
+    n_dn = ctx.scale(30, 300)
     cases = list(corpus)
     cases += [gen_case(ctx.rng, f"c{i}") for i in range(n_cli)]
     cases += [gen_case(ctx.rng, f"dn{i}", "dirnode") for i in range(n_dn)]
@@ -904,9 +931,10 @@ def campaign(ctx) -> None:
             ctx.extra["selftest_F16_witness_detected"] = any(v["finding"] == "F16" for v in ctx.violations)
     compare_model(ctx, pending)
     total = max(1, len(cases))
-    if (ctx.dist["unresolved-output"] + ctx.dist["worker-error"]) * 10 > total:
+    fresh_now = [v for v in ctx.violations if not v["finding"]]
+    if not fresh_now and (ctx.dist["unresolved-output"] + ctx.dist["worker-error"]) * 10 > total:
         raise common.InfraError(f"too many uninterpretable runs: {dict(ctx.dist)} {ctx.extra.get('worker_errors', [])[:2]}")
-    if ctx.dist["nonzero-exit"] * 5 > total:
+    if not fresh_now and ctx.dist["nonzero-exit"] * 5 > total:
         raise common.InfraError(f"too many failing clean runs ({ctx.dist['nonzero-exit']}/{total}): "
                                 f"{ctx.extra.get('nonzero_exit_samples')}")
 
@@ -917,3 +945,14 @@ def campaign(ctx) -> None:
 
     # 3. pmatch
     pmatch_campaign(ctx, max_len=3 if not ctx.thorough else 4, n_random=ctx.scale(300, 3000))
+
+    # 4. self-test of the oracle (DESIGN §3): a witness recorded as `known` must still be flagged. Only decisive when
+    #    nothing else is wrong (a violation / disagreement / broken proof is reported by the pipeline instead).
+    known_ids = {e["id"] for e in common.load_known("C11") if e.get("status") == "known"}
+    fresh = [v for v in ctx.violations if not v["finding"]]
+    proof_ok = ctx.lean is None or getattr(ctx.lean, "proof_ok", True)
+    if not fresh and not ctx.disagreements and proof_ok:
+        for fid in ("F9", "F16"):
+            if fid in known_ids and not ctx.extra.get(f"selftest_{fid}_witness_detected"):
+                raise common.InfraError(f"known finding {fid}: its corpus witness is no longer flagged by the oracle - either the oracle "
+                                        f"is broken or the defect was repaired (then record it as fixed in known_findings.json)")
